@@ -272,6 +272,7 @@ func (p *sxPath) CallsNamed(names ...string) []*sxCallRec {
 const (
 	sxMaxPaths  = 50000
 	sxMaxVisits = 2
+	sxMaxSteps  = 4000
 )
 
 type sxState struct {
@@ -286,10 +287,11 @@ type sxState struct {
 	visits  map[*ssa.BasicBlock]int
 	nUnk    *int
 	nCall   map[ssa.Instruction]int
+	steps   int
 }
 
 func (s *sxState) clone() *sxState {
-	c := &sxState{fn: s.fn, nUnk: s.nUnk,
+	c := &sxState{fn: s.fn, nUnk: s.nUnk, steps: s.steps,
 		regs: make(map[ssa.Value]sxVal, len(s.regs)), mem: make(map[string]sxVal, len(s.mem)),
 		factIdx: make(map[string]bool, len(s.factIdx)), visits: make(map[*ssa.BasicBlock]int, len(s.visits)),
 		nCall: make(map[ssa.Instruction]int, len(s.nCall))}
@@ -351,7 +353,7 @@ func (f *sxFrame) active(fn *ssa.Function) bool {
 }
 
 const (
-	sxInlineDepth  = 3
+	sxInlineDepth  = 5
 	sxInlineBlocks = 60
 )
 
@@ -383,10 +385,11 @@ func sxPathsInline(fn *ssa.Function, tag string, inline func(*ssa.Function) bool
 		if res.Err != "" {
 			return
 		}
-		if s.visits[b] >= sxMaxVisits {
-			return // loop bound: each block at most twice per activation
+		s.steps++
+		if s.steps > sxMaxSteps {
+			res.Err = fmt.Sprintf("a path of %s exceeds %d blocks (unbounded loop?)", FnName(fn), sxMaxSteps)
+			return
 		}
-		s.visits[b]++
 		if fr.parent == nil {
 			s.blocks = append(s.blocks, b)
 		}
@@ -422,6 +425,14 @@ func sxPathsInline(fn *ssa.Function, tag string, inline func(*ssa.Function) bool
 			case *ssa.If:
 				cond := s.eval(t.Cond)
 				key, neg, constant, cval := sxCondKey(cond)
+				if !constant {
+					// loop bound: every undecided branch point at most twice per activation
+					// (branches decided by constants — counted loops over literals — unroll fully)
+					if s.visits[b] >= sxMaxVisits {
+						return
+					}
+					s.visits[b]++
+				}
 				for i := 0; i < 2; i++ {
 					truth := i == 0
 					if constant {
@@ -437,10 +448,35 @@ func sxPathsInline(fn *ssa.Function, tag string, inline func(*ssa.Function) bool
 						res.Pruned++
 						continue
 					}
+					// facts implied by library contracts (strings.Cut: !found ⇒ after == "")
+					implied := sxImplied(cond, key, fv)
+					conflict := false
+					for _, f := range implied {
+						if old, ok := s.factIdx[f.Key]; ok && old != f.Val {
+							conflict = true
+						}
+					}
+					for k2, v2 := range s.factIdx {
+						for _, f := range sxImpliedBy(s, k2, v2) {
+							if f.Key == key && f.Val != fv {
+								conflict = true
+							}
+						}
+					}
+					if conflict {
+						res.Pruned++
+						continue
+					}
 					ns := s.clone()
 					if _, ok := ns.factIdx[key]; !ok {
 						ns.factIdx[key] = fv
 						ns.facts = append(ns.facts, sxFact{Key: key, Val: fv, Cond: cond})
+					}
+					for _, f := range implied {
+						if _, ok := ns.factIdx[f.Key]; !ok {
+							ns.factIdx[f.Key] = f.Val
+							ns.facts = append(ns.facts, f)
+						}
 					}
 					runBlock(ns, fr, b.Succs[i], b, k)
 				}
@@ -457,15 +493,28 @@ func sxPathsInline(fn *ssa.Function, tag string, inline func(*ssa.Function) bool
 				return
 			case *ssa.Call:
 				g := StaticCallee(t)
+				var bindings []sxVal
+				if inline != nil && !t.Call.IsInvoke() {
+					// a function literal (bound to a local or applied in place) is a helper like any other
+					if cl, ok := s.eval(t.Call.Value).(sxClosure); ok {
+						g, bindings = cl.fn, cl.bindings
+						if strings.HasPrefix(g.Synthetic, "bound method wrapper") {
+							g = nil // exported-API method values stay summarised (resolved in call())
+						}
+					}
+				}
 				if inline != nil && g != nil {
-					if inModule(g) && len(g.Blocks) > 0 && len(g.Blocks) <= sxInlineBlocks && len(g.FreeVars) == 0 &&
-						fr.depth < sxInlineDepth && !fr.active(g) && inline(g) {
+					if inModule(g) && len(g.Blocks) > 0 && len(g.Blocks) <= sxInlineBlocks && len(g.FreeVars) == len(bindings) &&
+						len(g.Params) == len(t.Call.Args) && fr.depth < sxInlineDepth && !fr.active(g) && inline(g) {
 						args := make([]sxVal, len(t.Call.Args))
 						for i, a := range t.Call.Args {
 							args[i] = s.eval(a)
 						}
 						for i, p := range g.Params {
 							s.regs[p] = args[i]
+						}
+						for i, fv := range g.FreeVars {
+							s.regs[fv] = bindings[i]
 						}
 						for _, gb := range g.Blocks {
 							delete(s.visits, gb)
@@ -501,6 +550,52 @@ func sxPathsInline(fn *ssa.Function, tag string, inline func(*ssa.Function) bool
 		}
 	})
 	return res
+}
+
+// sxImplied: further facts that follow from (cond == fv) by the documented
+// contract of the standard library.  strings.Cut(s, sep): found == false
+// implies after == "" (and before == s).
+func sxImplied(cond sxVal, key string, fv bool) []sxFact {
+	for {
+		op, ok := cond.(sxOp)
+		if !ok || op.op != "!" {
+			break
+		}
+		cond = op.args[0]
+	}
+	cl, ok := cond.(sxCall)
+	if !ok || cl.rec.Name != "strings.Cut" || cl.idx != 2 || fv || key != cl.key() {
+		return nil
+	}
+	after := sxCall{cl.rec, 1}
+	return []sxFact{{Key: sxEqKey(after, sxStr("")), Val: true, Cond: sxOp{"==", []sxVal{after, sxStr("")}}}}
+}
+
+// sxImpliedBy: the converse direction for facts already recorded: a known
+// after != "" of strings.Cut implies found == true.
+func sxImpliedBy(s *sxState, key string, val bool) []sxFact {
+	if val {
+		return nil
+	}
+	for _, f := range s.facts {
+		if f.Key != key {
+			continue
+		}
+		op, ok := f.Cond.(sxOp)
+		for ok && op.op == "!" {
+			op, ok = op.args[0].(sxOp)
+		}
+		if !ok || (op.op != "==" && op.op != "!=") {
+			return nil
+		}
+		for i := 0; i < 2; i++ {
+			cl, isCall := op.args[i].(sxCall)
+			if isCall && cl.rec.Name == "strings.Cut" && cl.idx == 1 && sxSame(op.args[1-i], sxStr("")) {
+				return []sxFact{{Key: sxCall{cl.rec, 2}.key(), Val: true}}
+			}
+		}
+	}
+	return nil
 }
 
 // sxCondKey canonicalises a branch condition: returns the fact key of the
@@ -540,6 +635,23 @@ func sxCondKey(c sxVal) (key string, neg bool, isConst bool, cval bool) {
 	}
 }
 
+// sxFoldInt folds integer arithmetic and comparisons of constants (loop
+// counters over literals).
+func sxFoldInt(op token.Token, x, y sxVal, t types.Type) sxVal {
+	cx, okX := x.(sxConst)
+	cy, okY := y.(sxConst)
+	if !okX || !okY || cx.c.Value == nil || cy.c.Value == nil || cx.c.Value.Kind() != constant.Int || cy.c.Value.Kind() != constant.Int {
+		return nil
+	}
+	switch op {
+	case token.ADD, token.SUB, token.MUL:
+		return sxConst{ssa.NewConst(constant.BinaryOp(cx.c.Value, op, cy.c.Value), t)}
+	case token.LSS, token.LEQ, token.GTR, token.GEQ, token.EQL, token.NEQ:
+		return sxConst{ssa.NewConst(constant.MakeBool(constant.Compare(cx.c.Value, op, cy.c.Value)), types.Typ[types.Bool])}
+	}
+	return nil
+}
+
 // sxKnownNonNil: terms that cannot be nil (fresh errors, sentinel errors,
 // addresses of variables, function values, freshly made maps/slices).
 func sxKnownNonNil(v sxVal) bool {
@@ -568,6 +680,9 @@ func (s *sxState) eval(v ssa.Value) sxVal {
 		}
 		return sxParam{u}
 	case *ssa.FreeVar:
+		if r, ok := s.regs[v]; ok {
+			return r // bound to the captured variable of an inlined function literal
+		}
 		return sxFreeVar{u}
 	case *ssa.Global:
 		return sxGlobal{u}
@@ -582,6 +697,29 @@ func (s *sxState) eval(v ssa.Value) sxVal {
 	return s.unknown("value " + v.Name() + " used before evaluation")
 }
 
+// sxZeroOf: the zero value of t as a term — a constant for basic and
+// nil-able types (so that a never-assigned flag reads as false), sxZero for
+// aggregates.
+func sxZeroOf(t types.Type) sxVal {
+	if t == nil {
+		return sxZero{}
+	}
+	switch u := t.Underlying().(type) {
+	case *types.Basic:
+		switch {
+		case u.Info()&types.IsBoolean != 0:
+			return sxConst{ssa.NewConst(constant.MakeBool(false), t)}
+		case u.Info()&types.IsString != 0:
+			return sxConst{ssa.NewConst(constant.MakeString(""), t)}
+		case u.Info()&types.IsInteger != 0:
+			return sxConst{ssa.NewConst(constant.MakeInt64(0), t)}
+		}
+	case *types.Pointer, *types.Interface, *types.Slice, *types.Map, *types.Chan, *types.Signature:
+		return sxNil
+	}
+	return sxZero{t}
+}
+
 func sxFieldOf(v sxVal, f int, name string, ft types.Type) sxVal {
 	switch u := v.(type) {
 	case sxStruct:
@@ -589,11 +727,11 @@ func sxFieldOf(v sxVal, f int, name string, ft types.Type) sxVal {
 			return x
 		}
 		if u.base == nil {
-			return sxZero{ft}
+			return sxZeroOf(ft)
 		}
 		return sxFieldOf(u.base, f, name, ft)
 	case sxZero:
-		return sxZero{ft}
+		return sxZeroOf(ft)
 	}
 	return sxField{x: v, field: f, name: name}
 }
@@ -631,7 +769,7 @@ func (s *sxState) load(addr sxVal, t types.Type) sxVal {
 		}
 		return sxOp{"index", []sxVal{s.load(a.base, nil), a.idx}}
 	case sxAlloc:
-		return sxZero{t}
+		return sxZeroOf(t)
 	}
 	return sxInit{addr}
 }
@@ -696,7 +834,12 @@ func (s *sxState) exec(in ssa.Instruction) {
 			s.regs[u] = sxOp{u.Op.String(), []sxVal{x}}
 		}
 	case *ssa.BinOp:
-		s.regs[u] = sxOp{u.Op.String(), []sxVal{s.eval(u.X), s.eval(u.Y)}}
+		x, y := s.eval(u.X), s.eval(u.Y)
+		if f := sxFoldInt(u.Op, x, y, u.Type()); f != nil {
+			s.regs[u] = f
+		} else {
+			s.regs[u] = sxOp{u.Op.String(), []sxVal{x, y}}
+		}
 	case *ssa.FieldAddr:
 		name, _ := sxFieldNameOf(u.X.Type(), u.Field)
 		s.regs[u] = sxFieldAddr{base: s.eval(u.X), field: u.Field, name: name}
@@ -704,7 +847,13 @@ func (s *sxState) exec(in ssa.Instruction) {
 		name, ft := sxFieldNameOf(u.X.Type(), u.Field)
 		s.regs[u] = sxFieldOf(s.eval(u.X), u.Field, name, ft)
 	case *ssa.IndexAddr:
-		s.regs[u] = sxIndexAddr{base: s.eval(u.X), idx: s.eval(u.Index)}
+		base := s.eval(u.X)
+		if op, ok := base.(sxOp); ok && op.op == "slice" && op.args[1] == nil {
+			if a, ok := op.args[0].(sxAlloc); ok {
+				base = a // s[i] of s = arr[:] addresses arr[i]
+			}
+		}
+		s.regs[u] = sxIndexAddr{base: base, idx: s.eval(u.Index)}
 	case *ssa.Index:
 		s.regs[u] = sxOp{"index", []sxVal{s.eval(u.X), s.eval(u.Index)}}
 	case *ssa.ChangeType:
@@ -788,7 +937,15 @@ func (s *sxState) call(c ssa.CallInstruction, deferred bool) sxVal {
 	cc := c.Common()
 	in := c.(ssa.Instruction)
 	if b, ok := cc.Value.(*ssa.Builtin); ok && (b.Name() == "len" || b.Name() == "cap") && len(cc.Args) == 1 {
-		return sxOp{b.Name(), []sxVal{s.eval(cc.Args[0])}}
+		arg := s.eval(cc.Args[0])
+		if op, ok := arg.(sxOp); ok && op.op == "slice" && op.args[1] == nil && op.args[2] == nil {
+			if a, ok := op.args[0].(sxAlloc); ok {
+				if arr, ok := a.a.Type().(*types.Pointer).Elem().Underlying().(*types.Array); ok {
+					return sxInt(arr.Len()) // length of a slice literal
+				}
+			}
+		}
+		return sxOp{b.Name(), []sxVal{arg}}
 	}
 	s.nCall[in]++
 	name := ""
